@@ -1,9 +1,21 @@
 #!/bin/sh
 # run the repository's GW-BASIC corpus (tests/basic, 571 programs with recorded model output) in a scratch worktree of /repo HEAD
-# and compare the set of failing tests with the baseline of the pinned commit (tools/corpus_baseline_failures.txt)
+# and compare the set of failing tests with the baseline of the pinned commit (tools/corpus_baseline_failures.txt).
+# Some corpus tests depend on timing and on the order of the run (music queue, keyboard-driven tests): tests whose status differs
+# from the baseline in the full run are run once more on their own before the sets are compared.
 WT=$(mktemp -d /var/tmp/corpus_XXXXXX); rmdir $WT
 git -C /repo worktree add -q --detach $WT HEAD || exit 2
+strip() { sed 's/\x1b\[[0-9;]*m//g' "$1" | grep -E "(newly failed|crashed|exception)\.$" | sed -E 's/Running test [0-9]+\/[0-9]+ \[[0-9.]+s\] //' | sort; }
 (cd $WT && timeout 7000 /venv/bin/python -m tests --all > $WT.log 2>&1)
-sed 's/\x1b\[[0-9;]*m//g' $WT.log | grep -E "(newly failed|crashed|exception)\.$" | sed -E 's/Running test [0-9]+\/[0-9]+ \[[0-9.]+s\] //' | sort > $WT.fail
+strip $WT.log > $WT.fail
+DIFF=$(diff /verif/tools/corpus_baseline_failures.txt $WT.fail | grep '^[<>]' | sed -E 's/^[<>] //; s/ \.\. .*//' | sort -u)
+if [ -n "$DIFF" ]; then
+  (cd $WT && rm -rf tests/basic/*/*/output && timeout 3000 /venv/bin/python -m tests $DIFF > $WT.log2 2>&1)
+  strip $WT.log2 > $WT.fail2
+  # final failing set = full run, with the re-run tests replaced by their status when run alone
+  { grep -v -F "$(echo "$DIFF" | sed 's/$/ ../')" $WT.fail; cat $WT.fail2; } | sort -u > $WT.final
+else
+  cp $WT.fail $WT.final
+fi
 git -C /repo worktree remove --force $WT
-if diff /verif/tools/corpus_baseline_failures.txt $WT.fail; then echo "corpus: same failing set as the pinned commit"; rm -f $WT.log $WT.fail; exit 0; else echo "corpus: DIFFERENT (log $WT.log)"; exit 1; fi
+if diff /verif/tools/corpus_baseline_failures.txt $WT.final; then echo "corpus: same failing set as the pinned commit"; rm -f $WT.log $WT.log2 $WT.fail $WT.fail2 $WT.final; exit 0; else echo "corpus: DIFFERENT (logs $WT.log $WT.log2)"; exit 1; fi
